@@ -436,6 +436,9 @@ let run_opt k c impl =
      (match impl_line impl k "C" with
       | Some dc -> cmp_fields "dup-loss" dc (base @ ["servers"; "ldev"; "lip4"; "lip6"; "aif"])
       | None -> ());
+     (match impl_line impl k "C2" with
+      | Some l when fget (fields l) "sf" <> "1" -> pr "FAIL %d dup-loss sockfuncs:not-copied\n" k
+      | _ -> ());
      List.iter (fun t -> match impl_line impl k t with
          | Some dd -> let fd = fields dd in
            if fget fd "st" <> "0" || fget fd "servers" <> srv then
